@@ -420,6 +420,31 @@ def _run_op(hist, op, idx, *, tape=None, uberjob_kwargs=None, client_wrap=None, 
                 raise SinkError(32, "Broken pipe (injected)")
 
         kwargs["progress"] = html_progress(failing_sink)
+    elif prog == "bundled-ok":
+        from uberjob.progress import html_progress
+
+        kwargs["progress"] = html_progress(rec.extra.setdefault("html_out", []).append)
+    elif prog == "mixed-sinkfail":
+        # recording members on both sides of a bundled display whose sink keeps failing: the display's trouble is its
+        # own - every other member still gets every notification, the run's outcome is the run's
+        from uberjob.progress import Progress, html_progress
+
+        sink_state = rec.extra.setdefault("sink", dict(n=0))
+
+        def failing_sink2(page):
+            sink_state["n"] += 1
+            if sink_state["n"] >= cfg.get("sink_fails_from", 1):
+                raise SinkError(32, "Broken pipe (injected)")
+
+        def mk2(tag):
+            def create():
+                ob = RecordingObserver(tag, yield_in_callbacks=cfg.get("obs_yield", False))
+                observers.append(ob)
+                return ob
+
+            return Progress(create)
+
+        kwargs["progress"] = [mk2("obs0"), html_progress(failing_sink2), mk2("obs2")]
     elif prog is None:
         kwargs["progress"] = None
     else:
